@@ -61,9 +61,10 @@ func (pv *c02PV) SignProposal(chainID string, p *tmproto.Proposal) error {
 	if err := pv.MockPV.SignProposal(chainID, p); err != nil {
 		return err
 	}
+	// reuse: the proposal is for the node's valid block (decided from what was actually signed)
 	reuse := "None"
-	if pv.h.cs.ValidBlock != nil {
-		reuse = "(Some " + vg.N(pv.h.hashID(pv.h.cs.ValidBlock.Hash())) + ")"
+	if vb := pv.h.cs.ValidBlock; vb != nil && bytes.Equal(p.BlockID.Hash, vb.Hash()) {
+		reuse = "(Some " + vg.N(pv.h.hashID(vb.Hash())) + ")"
 	}
 	pv.rec.outs = append(pv.rec.outs, vg.App("OSignProposal", vg.Z(p.Height), vg.Z(int64(p.Round)), vg.Z(int64(p.PolRound)), reuse))
 	return nil
@@ -115,26 +116,28 @@ type c02Block struct {
 }
 
 type c02Harness struct {
-	cs       *State
-	rec      *c02Rec
-	ticker   *c02Ticker
-	pvs      []types.MockPV // by validator index
-	me       int
-	hashIDs  map[string]uint64
-	pshIDs   map[string]uint64
-	sigIDs   map[string]uint64
-	byPSH    map[string]*c02Block // real blocks by part-set-header hash
-	cands    map[int64][]*c02Block
-	steps    []string
-	descr    []string
-	panicked bool
-	props    map[int64][]int64
-	lastH    int64
-	decided  int
-	kinds    map[string]int
-	onOwn    func(mi msgInfo) // called for every message the node put on its internal queue
-	hardCap  int
-	got      []msgInfo // messages delivered from the network (C01/C03 harness)
+	cs           *State
+	rec          *c02Rec
+	ticker       *c02Ticker
+	pvs          []types.MockPV // by validator index
+	me           int
+	hashIDs      map[string]uint64
+	pshIDs       map[string]uint64
+	sigIDs       map[string]uint64
+	byPSH        map[string]*c02Block // real blocks by part-set-header hash
+	cands        map[int64][]*c02Block
+	steps        []string
+	descr        []string
+	panicked     bool
+	props        map[int64][]int64
+	lastH        int64
+	decided      int
+	kinds        map[string]int
+	onOwn        func(mi msgInfo) // called for every message the node put on its internal queue
+	hardCap      int
+	got          []msgInfo // messages delivered from the network (C01/C03 harness)
+	lockedAtSync bool
+	net          *c01Net
 }
 
 func (h *c02Harness) hashID(b []byte) uint64 {
